@@ -55,8 +55,8 @@ Proof.
   unfold to_font_dict.
   destruct (get_name d (B "BaseFont")); [|discriminate].
   destruct (get_name d (B "Subtype")); [|discriminate].
-  assert (D : forall dd, match to_font_descriptor dd with DOk _ => DOk true | DErr e => DErr e | DFuel => DFuel end
-                         <> (DFuel : dres bool)).
+  assert (D : forall dd, match to_font_descriptor dd with DOk e => DOk (Some e) | DErr e => DErr e | DFuel => DFuel end
+                         <> (DFuel : dres (option bool))).
   { intros dd. destruct (to_font_descriptor dd) eqn:E; try discriminate.
     exfalso. eapply to_font_descriptor_fuel; eauto. }
   match goal with |- match ?x with _ => _ end <> _ => assert (X : x <> DFuel) end.
